@@ -295,8 +295,14 @@ def main(argv=None):
             print('%d unlisted violation observation(s) in %d distinct (cause,row) group(s)' % (total, len(unknown)))
             return 1
         if reasons:
-            for r in reasons[:10]:
-                print('INCONCLUSIVE property=%s reason=%s' % (prop_id, str(r).replace('\n', ' | ')[:700]))
+            shown = set()
+            for r in reasons:
+                line = str(r).replace('\n', ' | ')
+                key = line[-120:]
+                if key in shown or len(shown) >= 4:
+                    continue
+                shown.add(key)
+                print('INCONCLUSIVE property=%s reason=%s' % (prop_id, line[:160] + (' ... ' + line[-400:] if len(line) > 160 else '')))
             return 2
         if args.replay:
             print('replay: no violation reproduced')
